@@ -11,6 +11,7 @@ CONSTANTS
   HookFailChoices <- NoHookFail
   LaunchToParent = FALSE
   ResumeOnDeath = TRUE
+  PausedAtBirth = FALSE
   LaunchInline = TRUE
 VIEW View
 INVARIANTS TypeOK KilledOnce ChildrenFirst NobodyStuck NoStrandedMail
